@@ -181,6 +181,10 @@ func checkC04(c *Ctx) {
 				n++
 				il := p.PartLeaves(*idP, outer, ana.PVOpt{})
 				fl := p.PartLeaves(*feeP, outer, ana.PVOpt{})
+				if fl.HasOp("Keeper.ConvertFromExternalValue") || fl.HasOp("Keeper.ConvertToExternalValue") && op.Op == "Delete" {
+					okAll = false
+					detail = sprintf("at %s: the fee component of the key is a converted amount, the entry is stored under its external-unit fee", where)
+				}
 				if !(il.HasField("SendToExternal.Id") && fl.HasField("SendToExternal.Fee.Amount")) || fl.HasField("SendToExternal.Token.Amount") || fl.HasField("SendToExternal.ValCommission.Amount") {
 					okAll = false
 					detail = sprintf("at %s: id<-%v fee<-%v", where, il.List(), fl.List())
